@@ -21,6 +21,23 @@ SIZES_MIXED = {"quick": {"C09": 80, "C10": 300, "C11": 300, "C12": 80},
                "thorough": {"C09": N_MIXED, "C10": N_MIXED, "C11": N_MIXED,
                             "C12": N_MIXED}}
 MIXED_FROM = {"C09": 0, "C10": 1000, "C11": 0, "C12": 0}
+# late-window family (world_store.LATE_BASE + 0..N_LATE-1), C09/C11/C12: the
+# cleaning process ingests only the late part of the capture
+N_LATE = 600
+SIZES_LATE = {"quick": {"C09": 40, "C10": 0, "C11": 150, "C12": 40},
+              "thorough": {"C09": N_LATE, "C10": 0, "C11": N_LATE,
+                           "C12": N_LATE}}
+# growing-trace family (world_store.GROW_BASE + 0..N_GROW-1), C09/C11/C12: two
+# pipeline runs over one file, late descendant spans change shapes in run 2
+N_GROW = 600
+SIZES_GROW = {"quick": {"C09": 80, "C10": 0, "C11": 40, "C12": 40},
+              "thorough": {"C09": N_GROW, "C10": 0, "C11": N_GROW,
+                           "C12": N_GROW}}
+# many-traces family (world_store.LARGE_BASE + MANY_FROM + 0..N_MANY-1): more
+# candidate roots than one page of 999 / 1000 rows
+N_MANY = 120
+SIZES_MANY = {"quick": {"C09": 12, "C10": 6, "C11": 4, "C12": 4},
+              "thorough": {p: N_MANY for p in ("C09", "C10", "C11", "C12")}}
 SIZES_LARGE = {"quick": {"C09": 16, "C10": 64, "C11": 24, "C12": 24},
                "thorough": {p: N_LARGE for p in ("C09", "C10", "C11", "C12")}}
 
@@ -213,6 +230,19 @@ def build_units(prop, tier, seed, scale, findings):
     pool_m = range(MIXED_FROM[prop], N_MIXED)
     idxs += [ws.MIXED_BASE + i
              for i in sorted(rm.sample(pool_m, min(nm, len(pool_m))))]
+    nlate = scaled(SIZES_LATE[tier][prop], scale) if SIZES_LATE[tier][
+        prop] else 0
+    rlate = random.Random(core.derive(seed, prop, "late-scenarios"))
+    idxs += [ws.LATE_BASE + i
+             for i in sorted(rlate.sample(range(N_LATE),
+                                          min(nlate, N_LATE)))]
+    for fam, sizes, n_fam, base in (
+            ("grow", SIZES_GROW, N_GROW, ws.GROW_BASE),
+            ("many", SIZES_MANY, N_MANY, ws.LARGE_BASE + ws.MANY_FROM)):
+        nf = scaled(sizes[tier][prop], scale) if sizes[tier][prop] else 0
+        rf = random.Random(core.derive(seed, prop, fam + "-scenarios"))
+        idxs += [base + i for i in sorted(rf.sample(range(n_fam),
+                                                    min(nf, n_fam)))]
     for i in dict.fromkeys(idxs):
         u = {"kind": "store", "prop": prop, "idx": i,
              "hash_class": hash_class_of(i),
@@ -329,6 +359,10 @@ def main(prop, argv=None):
                   "batch_smaller_than_a_trace": 0,
                   "large_scale_scenarios": 0,
                   "traces_with_combined_faults": 0,
+                  "late_window_scenarios": 0,
+                  "growing_trace_histories": 0,
+                  "stores_with_more_than_1000_roots": 0,
+                  "late_window_outside_removed_at_buffer_0": 0,
                   "flush_batch_of_1000_or_more_spans_in_fallback": 0}
         batch_sizes: dict = {}
         states = set()
@@ -350,6 +384,15 @@ def main(prop, argv=None):
                         "fallback"):
                     probes["flush_batch_of_1000_or_more_spans_in_fallback"] \
                         += 1
+            if u["idx"] >= ws.GROW_BASE:
+                probes["growing_trace_histories"] += 1
+            elif ws.LARGE_BASE + ws.MANY_FROM <= u["idx"] < ws.MIXED_BASE:
+                probes["stores_with_more_than_1000_roots"] += 1
+            if ws.LATE_BASE <= u["idx"] < ws.GROW_BASE:
+                probes["late_window_scenarios"] += 1
+                probes["late_window_outside_removed_at_buffer_0"] += (
+                    r.get("time_buffer") == 0
+                    and "outside" in r.get("removed", {}).values())
             probes["traces_with_combined_faults"] += sum(
                 "+" in k for k in r.get("kinds", []))
             for e in r["errs"].get(prop, []):
@@ -363,6 +406,9 @@ def main(prop, argv=None):
                 faults["traces_removed_" + why] += 1
             for k in r["kinds"]:
                 kinds[k] = kinds.get(k, 0) + 1
+            faults["streams_abandoned_mid_read"] = faults.get(
+                "streams_abandoned_mid_read", 0) + r["probes"].get(
+                "abandoned_streams", 0)
             probes["integrity_fallback_runs"] += r["probes"]["fallback"] > 0
             probes["fallback_calls"] += r["probes"]["fallback"]
             probes["root_paging_over_one_page"] += r["probes"][
